@@ -8,6 +8,7 @@ pub mod c02;
 pub mod c03;
 pub mod c04;
 pub mod c05;
+pub mod c06;
 pub mod c08;
 pub mod c14;
 pub mod c16;
@@ -21,6 +22,7 @@ pub fn run(id: &str, tier: Tier) -> Option<CheckResult> {
         "C03" => Some(c03::run(tier)),
         "C04" => Some(c04::run(tier)),
         "C05" => Some(c05::run(tier)),
+        "C06" => Some(c06::run(tier)),
         "C08" => Some(c08::run(tier)),
         "C14" => Some(c14::run(tier)),
         "C16" => Some(c16::run(tier)),
@@ -37,6 +39,7 @@ pub fn replay(id: &str, case: &Value) -> Option<Vec<Violation>> {
         "C03" => Some(c03::replay(case)),
         "C04" => Some(c04::replay(case)),
         "C05" => Some(c05::replay(case)),
+        "C06" => Some(c06::replay(case)),
         "C08" => Some(c08::replay(case)),
         "C14" => Some(c14::replay(case)),
         "C16" => Some(c16::replay(case)),
@@ -47,6 +50,130 @@ pub fn replay(id: &str, case: &Value) -> Option<Vec<Violation>> {
 }
 
 pub fn selftest() -> i32 {
-    crate::outln!("selftest: ok (no oracles registered yet)");
-    0
+    let mut failures: Vec<String> = vec![];
+    let mut checks = 0u64;
+
+    // 1. TypeScript parser: committed positive / negative corpus
+    let corpus = verif_root().join("harness/corpus");
+    for (dir, want_ok) in [("pos", true), ("neg", false)] {
+        let Ok(rd) = std::fs::read_dir(corpus.join(dir)) else {
+            failures.push(format!("corpus/{} missing", dir));
+            continue;
+        };
+        for e in rd.flatten() {
+            let text = std::fs::read_to_string(e.path()).unwrap_or_default();
+            let r = crate::ts::parse_module(&text);
+            checks += 1;
+            if want_ok {
+                if let Err(err) = r {
+                    failures.push(format!("corpus/pos/{}: rejected: {}", e.file_name().to_string_lossy(), err));
+                }
+            } else {
+                let expect = text.lines().next().unwrap_or("").trim().trim_start_matches("// expect:").trim().to_string();
+                match r {
+                    Ok(_) => failures.push(format!("corpus/neg/{}: accepted", e.file_name().to_string_lossy())),
+                    Err(err) => {
+                        if format!("{:?}", err.kind) != expect {
+                            failures.push(format!("corpus/neg/{}: expected {} got {:?}", e.file_name().to_string_lossy(), expect, err.kind));
+                        }
+                    }
+                }
+            }
+        }
+    }
+
+    // 2. naming oracles against real serde (compiled fixtures)
+    if std::fs::read_to_string(c06::fixtures_path()).map(|t| t != c06::fixtures_source()).unwrap_or(true) {
+        failures.push("harness/fixtures/src/lib.rs is not what `ttv gen-fixtures` produces".into());
+    }
+    let table = c06::serde_table();
+    for it in c06::items().iter().filter(|i| i.attr == 0) {
+        let conv = c06::conventions()[it.conv];
+        let idents: Vec<&str> = if it.is_enum { c06::VARIANT_IDENTS.to_vec() } else { c06::FIELD_IDENTS.to_vec() };
+        for id in idents {
+            checks += 1;
+            let model = match (conv, it.is_enum) {
+                (None, _) => id.to_string(),
+                (Some(c), true) => crate::naming::serde_variant(c, id),
+                (Some(c), false) => crate::naming::serde_field(c, id),
+            };
+            let real = table.get(&it.name).and_then(|m| m.get(id)).cloned().flatten();
+            if real.as_deref() != Some(model.as_str()) {
+                failures.push(format!("naming model disagrees with serde: {:?} {} {} -> model {:?}, serde {:?}", conv, if it.is_enum { "variant" } else { "field" }, id, model, real));
+            }
+        }
+    }
+    // heck (tauri's argument key) and serde camelCase agree on the snake_case parameter alphabet
+    for n in c04::NAMES {
+        checks += 1;
+        if crate::naming::tauri_arg_key(n) != crate::naming::serde_field("camelCase", n) {
+            failures.push(format!("heck and serde camelCase disagree on {}", n));
+        }
+    }
+
+    // 3. generated project sources re-parse with syn (the printers print what the model means)
+    for t in crate::gen::enumerate_full(&[crate::gen::RTy::prim("String"), crate::gen::RTy::prim("()"), crate::gen::RTy::named("Item")], 2).iter().step_by(37) {
+        for s in crate::typesite::SITES {
+            checks += 1;
+            let p = crate::typesite::build_project(s, std::slice::from_ref(t), &crate::gen::leaf_defs());
+            for (name, src) in &p.files {
+                if let Err(e) = syn::parse_file(src) {
+                    failures.push(format!("generated project file {} does not parse as Rust: {} ({})", name, e, t.to_rust()));
+                }
+            }
+        }
+    }
+    for b in ["b0", "b1", "b2"] {
+        let base = crate::projects::base_by_name(b);
+        for (name, src) in &base.files {
+            checks += 1;
+            if let Err(e) = syn::parse_file(src) {
+                failures.push(format!("base project {} file {}: {}", b, name, e));
+            }
+        }
+        for e in crate::projects::edits_for(b) {
+            checks += 1;
+            match e.apply(&base) {
+                Err(m) => failures.push(format!("edit does not apply: {}", m)),
+                Ok(p) => {
+                    for (name, src) in &p.files {
+                        if let Err(err) = syn::parse_file(src) {
+                            failures.push(format!("edit {} leaves {} unparsable: {}", e.name, name, err));
+                        }
+                    }
+                }
+            }
+        }
+    }
+
+    // 4. shape denotation sanity on hand-checked values
+    {
+        use crate::gen::RTy;
+        use crate::shape::{denote, json_in_shape};
+        let resolve = |n: &str| if n == "Item" { Some(crate::shape::Shape::Obj([("id".to_string(), (crate::shape::Shape::Num, false))].into_iter().collect(), None)) } else { None };
+        let cases: Vec<(RTy, serde_json::Value, bool)> = vec![
+            (RTy::vec(RTy::opt(RTy::prim("String"))), serde_json::json!(["a", null]), true),
+            (RTy::vec(RTy::opt(RTy::prim("String"))), serde_json::json!([1]), false),
+            (RTy::HashMap(Box::new(RTy::prim("String")), Box::new(RTy::named("Item"))), serde_json::json!({"k": {"id": 1}}), true),
+            (RTy::Tuple(vec![RTy::prim("i32"), RTy::prim("bool")]), serde_json::json!([1, true]), true),
+            (RTy::Tuple(vec![RTy::prim("i32"), RTy::prim("bool")]), serde_json::json!([1]), false),
+            (RTy::Result2(Box::new(RTy::prim("u8")), Box::new(RTy::prim("String"))), serde_json::json!(7), true),
+        ];
+        for (t, v, want) in cases {
+            checks += 1;
+            if json_in_shape(&v, &denote(&t), &resolve) != want {
+                failures.push(format!("denotation sanity: {} vs {}", t.to_rust(), v));
+            }
+        }
+    }
+
+    if failures.is_empty() {
+        crate::outln!("selftest: ok ({} checks)", checks);
+        0
+    } else {
+        for f in &failures {
+            crate::outln!("SELFTEST-FAILURE {}", f);
+        }
+        2
+    }
 }
